@@ -16,3 +16,9 @@ pub mod mouse;
 #[cfg(feature = "sound")]
 pub mod sound;
 pub mod video;
+
+/// Verification-only re-export of the crate-private tape types
+#[cfg(rustzx_verif)]
+pub mod verif_tape {
+    pub use super::tape::{Empty, Tap, TapeImpl, ZXTape};
+}
